@@ -58,32 +58,58 @@ def runs_of(seq: list, enc: str, rng: random.Random | None) -> list[tuple[Any, i
     return [(a, b) for a, b in runs]
 
 
+def _group_marks(n: int, first: int, rng) -> dict:
+    """open/close marks of one (possibly nested) group over the run indexes first..n-1: {index: (opens, closes)}"""
+    marks: dict = {}
+    if rng is None or n - first < 1 or rng.random() > 0.3:
+        return marks
+    a = rng.randint(first, n - 1)
+    b = rng.randint(a, n - 1)
+    marks[a] = [1, 0]
+    marks.setdefault(b, [0, 0])[1] += 1
+    if rng.random() < 0.4:          # a nested group inside
+        c = rng.randint(a, b)
+        d = rng.randint(c, b)
+        marks.setdefault(c, [0, 0])[0] += 1
+        marks.setdefault(d, [0, 0])[1] += 1
+    return marks
+
+
 def table_xml(state: dict, enc: str = "max", rng: random.Random | None = None, name: str = "T", groups=None) -> str:
     """groups = (hc, hr): the first hc column runs are wrapped in table:table-header-columns and the first hr row
     runs in table:table-header-rows (what LibreOffice writes for repeated heading rows / print titles).
-    With enc == 'rand' and groups None the grouping is drawn at random (none 2 times out of 3)."""
+    With enc == 'rand' and groups None the grouping is drawn at random (none 2 times out of 3), and the runs after
+    the header ones may sit in (nested) table:table-row-group / table:table-column-group elements (outlines)."""
     col_runs = runs_of(list(state["cols"]), enc, rng)
     row_runs = runs_of([tuple(r) for r in state["rows"]], enc, rng)
+    cmarks: dict = {}
+    rmarks: dict = {}
     if groups is None:
         groups = (0, 0)
         if enc == "rand" and rng is not None and rng.random() < 0.34:
             groups = (rng.randint(0, len(col_runs)) if rng.random() < 0.5 else 0, rng.randint(0, len(row_runs)))
+            cmarks = _group_marks(len(col_runs), groups[0], rng)
+            rmarks = _group_marks(len(row_runs), groups[1], rng)
     hc, hr = groups
     parts = [f'<table:table table:name="{name}">']
     for i, (c, n) in enumerate(col_runs):
         if hc and i == 0:
             parts.append("<table:table-header-columns>")
+        parts.append("<table:table-column-group>" * cmarks.get(i, (0, 0))[0])
         parts.append(col_xml(c, n))
+        parts.append("</table:table-column-group>" * cmarks.get(i, (0, 0))[1])
         if hc and i == min(hc, len(col_runs)) - 1:
             parts.append("</table:table-header-columns>")
     for i, (r, n) in enumerate(row_runs):
         if hr and i == 0:
             parts.append("<table:table-header-rows>")
+        parts.append("<table:table-row-group>" * rmarks.get(i, (0, 0))[0])
         rr = f' table:number-rows-repeated="{n}"' if n > 1 else ""
         parts.append(f"<table:table-row{rr}>")
         for c, k in runs_of(list(r), enc, rng):
             parts.append(cell_xml(c, k))
         parts.append("</table:table-row>")
+        parts.append("</table:table-row-group>" * rmarks.get(i, (0, 0))[1])
         if hr and i == min(hr, len(row_runs)) - 1:
             parts.append("</table:table-header-rows>")
     parts.append("</table:table>")
